@@ -188,6 +188,11 @@ def div_array_tbl(ex, st, n, args):
         ex.bounds_oblig(buf, nn.t * esize(idt.t), st, n,
                         'div_array[id] argument: ' + cast_mod.src_of(
                             ex.tu, n))
+        own = getattr(buf.region, 'owner', None) if buf.region else None
+        if own is not None and hasattr(own, 'id'):
+            ex.oblige(st, 'kernel-typecode', idt.t == own.id, n,
+                      text='div_array[id] is the kernel for the typecode of '
+                      'the buffer it is applied to')
     return IntV(z3.If(ex.fresh_bool('div_ok'), 0, -1), 'int')
 
 
@@ -913,10 +918,24 @@ def post_inplace(ex, finished, extra_obs):
     ob = mk_ob(ex, extra_obs)
     o = ex.objs['self']
     n = 0
+    other = ex.objs.get('other')
     for st, kind, val in finished:
         if isinstance(val, PtrV) and val.obj is o:
             n += 1
             idv = field(ex, st, o, 'id', o.id)
+            if other is not None:
+                # documented rule: an in-place operation is allowed only when
+                # the result type (the larger operand typecode; at least 'd'
+                # for true division) is the type of the left operand
+                nid = other.extra.setdefault('numid', z3.Int(
+                    'numid(%s)' % other.name))
+                oid = z3.If(other.ismat, other.id, nid)
+                res = z3.If(o.id >= oid, o.id, oid)
+                if ex.fname == 'matrix_div_generic':
+                    res = z3.If(res >= 1, res, 1)
+                ob('inplace-type-rule', st.path(), res == o.id,
+                   'an in-place operator is accepted only when the result '
+                   'type is the type of the left operand')
             ob('typecode-preserved', st.path(), idv == o.id,
                'an in-place operator returning self leaves the typecode '
                'unchanged')
@@ -1209,6 +1228,7 @@ def get_buffer(ex, st, n, args):
     foreign = Region('foreign', 'exporter memory', None)
     st.mem[view.region.uid] = StructV('Py_buffer', {
         'ndim': IntV(nd, 'int'), 'itemsize': IntV(isz, 'long'),
+        'len': IntV(isz * s0 * z3.If(nd == 2, s1, 1), 'long'),
         'format': FmtV('view.format'),
         'shape': ArrV([IntV(s0, 'long'), IntV(s1, 'long')]),
         'strides': ArrV([IntV(t0, 'long'), IntV(t1, 'long')]),
@@ -1218,6 +1238,52 @@ def get_buffer(ex, st, n, args):
                    'PyBUF_STRIDES describes every element address as buf + '
                    'sum idx[k]*strides[k] (CPython documentation)')
     return IntV(z3.IntVal(0), 'int')
+
+
+def buffer_is_contiguous(ex, st, n, args):
+    """PyBuffer_IsContiguous(view, order): for order 'F' true exactly when
+    strides[0] == itemsize and strides[1] == shape[0]*itemsize (1-D: the
+    first condition); 'C' and 'A' are not modelled"""
+    imp = st.ghost.get('import')
+    o = ex.ev(args[1], st)
+    if imp is None:
+        raise Unsupported('PyBuffer_IsContiguous without a known view')
+    ov = z3.simplify(toint(o).t)
+    if not z3.is_int_value(ov) or ov.as_long() != ord('F'):
+        raise Unsupported("PyBuffer_IsContiguous order other than 'F'")
+    isz = z3.Int('view.itemsize')
+    return BoolV(z3.And(imp['t0'] == isz, z3.Or(
+        imp['nd'] != 2, imp['t1'] == imp['s0'] * isz)))
+
+
+def memcpy_import(ex, st, n, args):
+    """memcpy from the exporter's memory into the matrix under construction:
+    allowed when it copies exactly the elements in column-major order, i.e.
+    the exporter is Fortran-contiguous with items of the matrix' element
+    size"""
+    d = ex.ev(args[0], st)
+    s_ = ex.ev(args[1], st)
+    k = toint(ex.ev(args[2], st)).t
+    imp = st.ghost.get('import')
+    if imp is not None and isinstance(s_, PtrV) and s_.region is not None \
+            and s_.region.kind == 'foreign' and isinstance(d, PtrV) and \
+            d.region is not None and d.region.owner is not None and getattr(
+                d.region.owner, 'fresh', False):
+        es = z3.If(d.region.owner.id == 2, 16, 8)
+        nd, s0, s1, t0, t1 = (imp[x] for x in ('nd', 's0', 's1', 't0', 't1'))
+        ncols = z3.If(nd == 2, s1, 1)
+        ex.bounds_oblig(d, k, st, n, 'memcpy destination: ' +
+                        cast_mod.src_of(ex.tu, n))
+        ex.oblige(st, 'import-address', z3.And(
+            d.off == 0, s_.off == 0, k == s0 * ncols * es, t0 == es,
+            z3.Or(nd != 2, t1 == s0 * es)), n,
+            text='a bulk copy from the exporter is column-major with items '
+            'of the element size: ' + cast_mod.src_of(ex.tu, n))
+        st.stores.append((d.region, d.off, k, list(st.path()),
+                          n.get('line')))
+        return d
+    from contracts.c.extern_cpython import EXTERNS as _E
+    return _E['memcpy'](ex, st, n, args)
 
 
 def c_strcmp(ex, st, n, args):
@@ -1334,6 +1400,8 @@ FUNCS['Matrix_NewFromPyBuffer'] = {
     'externs': dict(COMMON, **{
         'PyObject_GetBuffer': get_buffer, 'strcmp': c_strcmp,
         'PyBuffer_Release': lambda ex, st, n, a: Opaque('void'),
+        'PyBuffer_IsContiguous': buffer_is_contiguous,
+        'memcpy': memcpy_import,
         'read:foreign': read_foreign, 'write:matbuf': write_imported,
         'global:FMT_STR': lambda ex, st, n: ArrV([StrV(x) for x in FMT4])}),
     'config': {'small_malloc_succeeds': True}}
